@@ -118,15 +118,6 @@ macro "keeps" : tactic => `(tactic|
     | dsimp only
     | split))
 
-macro "keeps1" : tactic => `(tactic|
-  all_goals (try (first
-    | intro _
-    | keeps_leaf
-    | with_reducible apply Keeps.get_bind
-    | with_reducible apply Keeps.bind
-    | with_reducible apply Keeps.withRecover
-    | dsimp only
-    | split)))
 
 section prims
 
